@@ -327,6 +327,46 @@ Section Endpoint.
     destruct (IH m1 Hs' Hg') as [I1 I2].
     destruct (serve semver marshal cfg m1 qs) as [sts m2]. simpl in *. auto.
   Qed.
+  (* Uploads in flight together.  Concurrent requests take effect in some
+     order; for a batch of valid uploads of pairwise different objects EVERY
+     order gives: all answered 2xx, each object reads back as its report,
+     every other object as before.  (The theorem quantifies over the list,
+     hence over all its permutations.) *)
+  Definition batch_request (q : request) : Prop :=
+    valid_request (q_method q) (q_size_ok q) (q_decoded q) = true /\
+    forall r, q_decoded q = Some r -> g_string (r_xs r) = true.
+
+  Theorem batch_any_order : forall qs m, upload_store m -> Forall batch_request qs ->
+    NoDup (map q_path qs) ->
+    Forall (fun st => st = S2xx) (fst (serve semver marshal cfg m qs)) /\
+    upload_store (snd (serve semver marshal cfg m qs)) /\
+    (forall q r, In q qs -> q_decoded q = Some r ->
+       read (snd (serve semver marshal cfg m qs)) (components (object_name r)) = ROk (object_content marshal r)) /\
+    (forall n c, (forall q, In q qs -> q_path q <> components n) ->
+       (read (snd (serve semver marshal cfg m qs)) (components n) = ROk c <-> read m (components n) = ROk c)).
+  Proof.
+    induction qs as [|q qs IH]; intros m Hs Hb Hnd; simpl.
+    - split; [constructor|]. split; [exact Hs|]. split; [intros ? ? []|]. intros; tauto.
+    - inversion Hb as [|q' qs' [Hv Hx] Hb']; subst. inversion Hnd as [|p ps Hnotin Hnd']; subst.
+      destruct (valid_request_inv _ _ _ Hv) as [_ [_ [r0 [Hdec _]]]].
+      assert (Hv0 : valid_request (q_method q) (q_size_ok q) (Some r0) = true) by (rewrite <- Hdec; exact Hv).
+      destruct (valid_upload_written m _ _ _ Hs Hv0 (Hx r0 Hdec)) as [m1 [Hw [Hh Hs1]]].
+      rewrite Hdec, Hh.
+      destruct (IH m1 Hs1 Hb' Hnd') as [I1 [I2 [I3 I4]]].
+      destruct (serve semver marshal cfg m1 qs) as [sts m2]. simpl in *.
+      assert (Hpath : q_path q = components (object_name r0)) by (unfold q_path; rewrite Hdec; reflexivity).
+      split; [constructor; [reflexivity | exact I1]|]. split; [exact I2|]. split.
+      + intros q1 r1 [<-|Hin] Hd1.
+        * rewrite Hdec in Hd1. injection Hd1 as <-.
+          apply (I4 (object_name r0) (object_content marshal r0)).
+          -- intros q2 Hin2 E. apply Hnotin. rewrite Hpath, <- E. apply in_map. exact Hin2.
+          -- eapply write_read; [apply Hs | exact Hw].
+        * eapply I3; eauto.
+      + intros n c Hn. rewrite (I4 n c (fun q2 Hin2 => Hn q2 (or_intror Hin2))).
+        apply (write_frame m (object_name r0) (object_content marshal r0) m1 n c (proj1 Hs) Hw).
+        intro E. apply (Hn q (or_introl eq_refl)). rewrite Hpath. symmetry. exact E.
+  Qed.
+
   Section Roundtrip.
   (* what is stored decodes to the report (JSON round trip as a premise) *)
   Variable unmarshal : bytes -> option report.
